@@ -797,7 +797,7 @@ func ruleStoredReopenable(w *World, r *Run, a *updAnalysis, rule string) {
 }
 
 // C08.b HONEST-STEP-COMPLETE
-func ruleHonestStep(w *World, r *Run, a *updAnalysis, rule string) {
+func ruleHonestStep(w *World, r *Run, a *updAnalysis, rule string, only ...string) {
 	if !a.guard(r, rule) {
 		return
 	}
@@ -810,6 +810,9 @@ func ruleHonestStep(w *World, r *Run, a *updAnalysis, rule string) {
 	}
 	classes := []class{{"0=stored=submitted", true, true}, {"0=stored<submitted", true, false}, {"0<stored=submitted", false, true}, {"0<stored<submitted", false, false}}
 	for _, c := range classes {
+		if len(only) > 0 && !containsStr(only, c.name) {
+			continue
+		}
 		success, refused := 0, 0
 		considered := 0
 		condNote, refusedAt := "", ""
